@@ -60,6 +60,27 @@ func setColumns(sqlLower string) []string {
 }
 
 func runC21(c *Ctx) {
+	c.Rule("C21.OWN", "WHO: the token cache map of AuthManager is replaced (a new map stored into the field) only by the constructor and by InvalidateCache; every other function changes it in place under the lock — a function that builds a copy and installs it can resurrect entries an invalidation removed in between")
+	{
+		n := 0
+		for _, fn := range c.P.FuncsIn("internal/auth") {
+			for _, in := range instrs(fn, true) {
+				st, ok := in.(*ssa.Store)
+				if !ok {
+					continue
+				}
+				sn, fld, _, ok := fieldOf(st.Addr)
+				if !ok || sn != "AuthManager" || fld != "cache" {
+					continue
+				}
+				n++
+				name := fn.Name()
+				allowed := name == "InvalidateCache" || strings.HasPrefix(name, "NewAuthManager") || strings.HasPrefix(name, "New")
+				c.Check(allowed, "C21.OWN", name+"|replaces-cache-map", st.Pos(), "the cache map is replaced by its owner", name+" installs a new map as the token cache: entries copied before a concurrent InvalidateCache are put back after it, and a revoked, deleted or rotated token value keeps authenticating from the cache")
+			}
+		}
+		c.Check(n >= 1, "C21.OWN", "AuthManager.cache|writers", 0, fmt.Sprintf("%d store(s) into the cache field inspected", n), "no store into AuthManager.cache found (rule needs review)")
+	}
 	p := c.P
 	c.Rule("C21.INV", "PASS: in every (*AuthManager) method each Exec that updates or deletes api_tokens rows (other than last_used_at / prefix backfill) reaches a nil-error return only through InvalidateCache")
 	c.Rule("C21.SERIAL", "ORDER/CONST: the stale-insert window of VerifyToken (DB read outside cacheMu, insert later) is closed by serialisation: the auth DB handle is limited to one connection and the rows cursor stays open (Close only deferred) until after the cache insert; alternatively the insert is guarded by a generation counter also written by InvalidateCache")
